@@ -72,10 +72,11 @@ def verify(R, oid, fn, run, replay=None, on_raise=None, label=None, max_paths=40
                 upd(clause, "undecided", "z3", 0.0, detail=f"z3 error {e}")
                 continue
             vc = None
-            try:
-                vc = f"{' & '.join(str(h) for h in p.pc[:8])} ==> {z3.simplify(goal)}"[:600]
-            except Exception:
-                pass
+            if v.status != "discharged" or clause not in agg or not agg[clause]["vc"]:
+                try:
+                    vc = f"{' & '.join(str(h) for h in p.pc[:8])} ==> {z3.simplify(goal)}"[:600]
+                except Exception:
+                    pass
             if v.status == "failed":
                 m = dict(v.model or {})
                 upd(clause, "failed", v.backend, v.ms, m, detail or "counter-model found", vc)
